@@ -316,11 +316,15 @@ func (s *Sorter) SortedBlocks(ctx context.Context, removedCols map[int]struct{},
 				break
 			}
 
-			// append min row to block
-			minRow = r.RemoveFrom(minRow)
+			// append min row to block. The primary key is read before columns
+			// are removed because pkIndices refer to the original columns.
 			row := dec.Decode(minRow)
 			slice.CopyValuesFromIndices(row, rowPK, pkIndices)
 			pkOK := pkIsDifferent(rowPK, prevRowPK, &hasPrevRow)
+			if len(remSl) > 0 {
+				minRow = r.RemoveFrom(minRow)
+				row = dec.Decode(minRow)
+			}
 			if pkOK {
 				m := len(blk)
 				blk = blk[:m+1]
